@@ -152,6 +152,7 @@ def simplifyOp (st : St) (moveP outP keepMem : Bool) (op : Opd R) : OpRes × St 
       let (t, st) := vnAdd st (.const v)
       ({ before := [.mov (.reg t) (.imm v)], op := .reg t }, st)
   | .mem m =>
+    if m.ty.isBlk then ({ op := op }, st) else   -- block argument of a call: left as it is
     let afterP := !moveP && outP
     let (ais, a, st) := lowerAddr st m
     let m' := simpleMem m.ty a
@@ -301,19 +302,28 @@ def setTarget (i : SInsn) (l : Lab) : SInsn :=
   | .bo u t _ => .bo u t l
   | i => i
 
-/-- the rows of the algebraic shortcut (mir.c:3761-3768): `(is this instruction a row, constant)` -/
+/-- the rows of the algebraic shortcut (mir.c:3761-3768): the constant second source operand for
+which `a x c` is replaced by `mov` (`x*1, x/1, x+0, x-0, x|0, x^0, x<<0, x>>0`) -/
+def aopShortcut : AOp → Option Int
+  | .mul | .div => some 1
+  | .add | .sub | .or | .xor | .lsh | .rsh | .ursh => some 0
+  | _ => none
+
+/-- (destination, first source, the row's constant, second source) when the opcode is a row;
+`MULO`/`MULOS` are rows too -/
 def shortcutConst : SInsn → Option (Opd R × Opd R × Int × Opd R)
-  | .bin a _ d x y =>
-    match a with
-    | .mul | .div => some (d, x, 1, y)
-    | .add | .sub | .or | .xor | .lsh | .rsh | .ursh => some (d, x, 0, y)
-    | _ => none
+  | .bin a _ d x y => (aopShortcut a).map fun c => (d, x, c, y)
   | .ovf .mul _ d x y => some (d, x, 1, y)
   | _ => none
 
 def shortcutApplies (i : SInsn) : Option (Opd R × Opd R) :=
   match shortcutConst i with
   | some (d, x, c, .imm v) => if v = BitVec.ofInt 64 c then some (d, x) else none
+  | _ => none
+
+/-- `BT|BF L, 0|1`: `some true` = becomes `jmp L`, `some false` = removed (mir.c:3782-3791) -/
+def btConst : SInsn → Option Bool
+  | .bt _ t _ (.imm v) => if v = 0 then some (t == false) else if v = 1 then some (t == true) else none
   | _ => none
 
 /-- `MIR_op_eq_p` on MirCore operands (scale is ignored without index) -/
@@ -407,11 +417,7 @@ def loopStep (L : Loop) (cur : SInsn) (rest : List SInsn) : Loop × List SInsn :
       | _, _ => false
     if caseC then done L rest else
     -- (d) bt/bf of the constants 0 and 1
-    let caseD : Option Bool :=
-      match cur with
-      | .bt _ t _ (.imm v) => if v = 0 then some (t == false) else if v = 1 then some (t == true) else none
-      | _ => none
-    match caseD with
+    match btConst cur with
     | some true => done L (.jmp l :: rest)
     | some false => done L rest
     | none =>
